@@ -252,7 +252,11 @@ func checkC11(p *load.Program, r *kit.Report) {
 	checkBranchSave(p, r)
 	checkSaveMainBranch(p, r)
 	if f := fn(p, r, "MERGE-SHAPE", H, "Repository.Save"); f != nil {
-		orderedBehindSuccess(p, r, "MERGE-SHAPE", f, "Save", H+".Repository.saveMainBranch", H+".Repository.saveBranches", H+".saveInvalidHashes")
+		// saveMainBranch writes the header files from repo.longest, starting at that branch's own
+		// lowest height: it is only right for the consolidated main branch (D20: a Save while a side
+		// branch holds the most work wrote the files from the fork point and left out everything
+		// below; on a store that had never been cleaned the next Load failed)
+		orderedBehindSuccess(p, r, "MERGE-SHAPE", f, "Save", H+".Repository.consolidate", H+".Repository.saveMainBranch", H+".Repository.saveBranches", H+".saveInvalidHashes")
 	}
 	checkSaveInvalidWrites(p, r)
 	// load merges config hashes behind not-found
